@@ -3,6 +3,7 @@
 EXTENDS MergeAE
 
 CONSTANT Scope   \* "pairs": queues of 1-2 requests, full request alphabet
+                 \* "pairs-small": the same over fewer follower logs / prev indexes (quick)
                  \* "triples": queues of exactly 3 requests, reduced alphabet (quick)
                  \* "triples-full": queues of exactly 3 requests, full alphabet (thorough)
 
@@ -10,13 +11,14 @@ mc_LTerms == <<1, 1, 2, 2, 2, 2, 2, 2>>
 \* follower logs of length <= 4: equal to the leader's prefix, diverging at index 2 / 3, shorter, empty
 mc_FLogs ==
   IF Scope = "triples" THEN {<<1, 1>>, <<1, 2, 2, 2>>, <<1, 1, 1, 1>>}
+  ELSE IF Scope = "pairs-small" THEN {<<>>, <<1, 1>>, <<1, 2, 2, 2>>, <<1, 1, 1, 1>>}
   ELSE {<<>>, <<1>>, <<1, 1>>, <<1, 2>>, <<1, 1, 2>>, <<1, 2, 2, 2>>, <<1, 1, 1, 1>>, <<1, 1, 2, 2>>}
-mc_FCommits == IF Scope = "triples" THEN {0} ELSE {0, 2}
+mc_FCommits == IF Scope = "triples" THEN {0} ELSE IF Scope = "pairs-small" THEN {0} ELSE {0, 2}
 mc_MaxMerges == {2, 3}
 mc_Terms == IF Scope = "triples" THEN {2} ELSE {2, 3}
-mc_Prevs == IF Scope = "triples" THEN {0, 1, 2} ELSE {0, 1, 2, 3, 4}
+mc_Prevs == IF Scope = "triples" THEN {0, 1, 2} ELSE IF Scope = "pairs-small" THEN {0, 1, 2, 3} ELSE {0, 1, 2, 3, 4}
 mc_Shapes == {"hb", "one", "two", "gap"}
-mc_MinQ == IF Scope = "pairs" THEN 1 ELSE 3
-mc_MaxQ == IF Scope = "pairs" THEN 2 ELSE 3
+mc_MinQ == IF Scope \in {"pairs", "pairs-small"} THEN 1 ELSE 3
+mc_MaxQ == IF Scope \in {"pairs", "pairs-small"} THEN 2 ELSE 3
 mc_Lcs == <<1, 4>>
 =============================================================================
